@@ -8,7 +8,7 @@
    5 q m s n (len cp* nlocs loc* rep)^n tree
                    -> as 0 for rules 23 24 25 26 of Valid/RulesDir.v (root types present, the schema's
                       directives: name, location indices, repeatable) *)
-From GV Require Import Base.Prelude Lang.Lexer Lang.Ast Lang.Parser Valid.Rules Valid.RulesWire Valid.RulesDir Valid.RulesRoot.
+From GV Require Import Base.Prelude Lang.Lexer Lang.Ast Lang.Parser Valid.Rules Valid.RulesWire Valid.RulesDir Valid.RulesRoot Valid.RulesValidOps.
 
 Definition with_tree (r : list N) (k : node -> list N) : list N :=
   match dec_node (S (length r)) r with
@@ -43,7 +43,7 @@ Fixpoint dec_dirs (n : nat) (r : list N) : option (list dinfo * list N) :=
 Definition rules_dir (ds : dschema) (d : node) : option (list verr) :=
   opt_concat [Some (rule_known_operation_types ds d); rule_known_directives ds d;
               Some (rule_unique_directives_per_location ds d); Some (rule_defer_stream_label d);
-              rule_root_field ds d].
+              rule_root_field ds d; rule_valid_operations d].
 
 Definition run (inp : list N) : list N :=
   match inp with
